@@ -1,5 +1,5 @@
 (** C07 — finalization: dead means unreachable, resurrection holds for the cycle. *)
-From GA Require Import Model.Spec Proofs.Inv Proofs.InvMark Proofs.InvSweep Proofs.Final Proofs.InvWorld Proofs.Safety.
+From GA Require Import Model.Spec Proofs.Inv Proofs.InvMark Proofs.InvSweep Proofs.Final Proofs.InvWorld Proofs.Safety Proofs.ExactDead.
 Local Open Scope nat_scope.
 
 (** When a MarkedArena is handed out (phase Mark, no gray work, root traced), every strongly
@@ -39,6 +39,32 @@ Theorem C07_revive_marking :
 Proof. exact revive_marking. Qed.
 Print Assumptions C07_revive_marking.
 
-(** PARTIAL: "if no mutation happened since marking of this cycle began, is_dead is true exactly
-    for the unreachable objects" (the direction unreachable => dead needs the ghost
-    marked-only-from-the-root accounting; it is checked by the implementation-side oracle). *)
+(** "If no mutation happened since marking of this cycle began, is_dead is true exactly for the
+    objects unreachable from the root": from a sleeping arena, after ANY sequence of collection
+    calls of any kind (any debt oracle, any stop condition, any number of increments; no callback in
+    between), whenever the arena is fully marked, [is_dead x] holds iff [x] is not strongly reachable. *)
+Theorem C07_dead_iff_unreachable :
+  forall c0 cs, Inv None c0 -> quiescent c0 -> ph c0 = Sleep ->
+    let c' := run_calls c0 cs in
+    is_marked c' = true ->
+    forall x o, get c' x = Some o -> (snd (is_dead c' x) = true <-> ~ reach c' x).
+Proof. exact dead_iff_unreachable. Qed.
+Print Assumptions C07_dead_iff_unreachable.
+
+(** ... in particular for every arena of every reachable world that is asleep outside callbacks *)
+Theorem C07_dead_iff_unreachable_world :
+  forall ops a ar cs,
+    cur (run world_init ops) = None -> get_arena (run world_init ops) a = Some ar -> ph (actx ar) = Sleep ->
+    let c' := run_calls (actx ar) cs in
+    is_marked c' = true ->
+    forall x o, get c' x = Some o -> (snd (is_dead c' x) = true <-> ~ reach c' x).
+Proof. exact dead_iff_unreachable_world. Qed.
+Print Assumptions C07_dead_iff_unreachable_world.
+
+Example C07_dead_nonvacuous :
+  let ops := [OBegin 0 CNew; OMicro (MAlloc 0 KNode 1 0); OMicro (MAlloc 4 KNode 1 0); OMicro (MAlloc 5 KNode 1 0);
+              OMicro (MStore 0 0 (Some 4)); OEnd] in
+  exists ar, get_arena (run world_init ops) 0 = Some ar /\ cur (run world_init ops) = None /\ ph (actx ar) = Sleep
+    /\ let c' := run_calls (actx ar) [(dec_debt, PayDebt, FullyMarked); (dec_debt, RunStop, FullyMarked)] in
+       is_marked c' = true /\ snd (is_dead c' 0) = false /\ snd (is_dead c' 1) = false /\ snd (is_dead c' 2) = true.
+Proof. cbv zeta. eexists. split; [vm_compute; reflexivity|]. vm_compute. repeat split. Qed.
